@@ -20,13 +20,17 @@
 (* TermOnce, Final (no callback starts after Terminate began).               *)
 (* Mut_SleepStore = TRUE replaces the CAS running -> sleep by a plain store  *)
 (* (the seeded change C05-m2): a terminated meta comes back to life.         *)
+(* Mut_InitSleep = TRUE registers the meta in state sleep (seeded change      *)
+(* C01-r3): two handler goroutines at once.                                   *)
 (***************************************************************************)
 EXTENDS Naturals, FiniteSets
-CONSTANTS Senders, Handlers, MayFail, Mut_SleepStore
+CONSTANTS Senders, Handlers, MayFail, Mut_SleepStore, Mut_InitSleep
 VARIABLES st, q, exitq, spc, tpc, hpc, inCb, termCount, termBegun, lateCb
 vars == <<st, q, exitq, spc, tpc, hpc, inCb, termCount, termBegun, lateCb>>
 
-Init == /\ st = "init" /\ q = 0 /\ exitq = 0
+\* (Mut_InitSleep: the meta is registered asleep instead of "init" - a sender that arrives before the Start goroutine has stored
+\* "sleep" then wins the wake-up CAS, and the unconditional store of the Start goroutine hands the meta out a second time)
+Init == /\ st = (IF Mut_InitSleep THEN "sleep" ELSE "init") /\ q = 0 /\ exitq = 0
         /\ spc = [s \in Senders |-> "push"]
         /\ tpc = "sleep"
         /\ hpc = [h \in Handlers |-> "free"]
